@@ -214,10 +214,11 @@ class FileModel:
 
 
 class DocModel:
-    __slots__ = ("obj", "tree", "elems", "origin", "dirty")
+    __slots__ = ("obj", "tree", "elems", "origin", "dirty", "path_elems")
 
     def __init__(self, obj, tree, origin):
         self.obj, self.tree, self.origin = obj, tree, origin
+        self.path_elems = {}    # pid -> (Element returned by add_path, model node)
         self.elems = {}     # names tuple -> Element handle returned by the library
         self.dirty = False
 
@@ -253,17 +254,22 @@ def is_path_elem(el):
     return isinstance(t, str) and (t == "path" or t.endswith("}path"))
 
 
+def attr_text(v):
+    """what a supplied attribute value looks like in the file: numbers (wsvg accepts them) as str(v)"""
+    return v if isinstance(v, str) else str(v)
+
+
 def style_keys(attrs):
     """property names declared in a `style` attribute"""
     st = (attrs or {}).get("style")
-    if not st:
+    if not isinstance(st, str) or not st:
         return ()
     return tuple(x.split(":")[0] for x in st.split(";") if ":" in x)
 
 
 def sax_effective(attrs):
     """What SaxDocument holds for a path: the attributes, with style declarations taking precedence."""
-    out = dict(attrs or {})
+    out = {k: attr_text(v) for k, v in (attrs or {}).items()}
     st = out.get("style")
     if st:
         for x in st.split(";"):
@@ -305,8 +311,8 @@ def match(result, tree, reader, check_attrs=True, attr_filter=None):
     cand = []
     for i, (e, key) in enumerate(exp):
         c = None
-        if use_ids and e.attrs is not None and "id" in e.attrs and e.attrs["id"] in got_ids:
-            c = [j for j in got_ids[e.attrs["id"]]]
+        if use_ids and e.attrs is not None and "id" in e.attrs and attr_text(e.attrs["id"]) in got_ids:
+            c = [j for j in got_ids[attr_text(e.attrs["id"])]]
             good = [j for j in c if path_equal(e.path, paths[j])]
             if not good:
                 if any(path_equal(e.path, q) for q in paths):
@@ -321,6 +327,11 @@ def match(result, tree, reader, check_attrs=True, attr_filter=None):
                                      "got_at_same_index": path_repr(paths[i]) if i < len(paths) else None})
         cand.append(c)
 
+    # svg2paths* and SaxDocument return DOCUMENT order (a depth-first walk of the file), which is
+    # unambiguous whatever the grouping; Document.paths() walks groups its own way, so for it only the
+    # order within one parent element is required (DESIGN 4.5)
+    total_order = reader.startswith(("svg2paths", "svgstr2paths", "sax"))
+
     def search(ordered):
         used = [False] * n
         out = [None] * n
@@ -333,7 +344,7 @@ def match(result, tree, reader, check_attrs=True, attr_filter=None):
             budget[0] -= 1
             if budget[0] < 0:
                 raise OverflowError
-            key = exp[i][1]
+            key = "*" if total_order else exp[i][1]
             lo = last.get(key, -1) if ordered else -1
             for j in cand[i]:
                 if used[j] or j <= lo:
@@ -363,9 +374,9 @@ def match(result, tree, reader, check_attrs=True, attr_filter=None):
         a = attrs[j]
         styled = style_keys(e.attrs) if reader.startswith("sax") else ()
         for k0, v in e.attrs.items():
-            if (attr_filter is not None and k0 not in attr_filter) or k0 in styled:
+            if (attr_filter is not None and k0 not in attr_filter) or k0 in styled or k0 == "d":
                 continue
-            if a.get(clark(k0)) != v:
+            if a.get(clark(k0)) != attr_text(v):
                 return False
         return True
     loose_cand = cand
@@ -396,6 +407,9 @@ def match(result, tree, reader, check_attrs=True, attr_filter=None):
                     continue
                 if k0 in styled:
                     continue    # SaxDocument gives a style declaration precedence over the attribute (CSS rule)
+                if k0 == "d":
+                    continue    # a 'd' among the attributes never replaces the path's own geometry
+                v = attr_text(v)
                 k = clark(k0)
                 if k not in a:
                     return ("attr_lost", {"pid": e.pid, "key": k, "value": v})
@@ -923,6 +937,10 @@ class World:
         nb = len(fs.browser_calls)
         if op.get("pathlike") and fname is not None:
             self.probe("pathlib_file_name")
+        if op.get("container") == "tuple":
+            args = tuple(args)
+        elif op.get("container") == "single" and len(args) == 1 and op.get("attrs") is None:
+            args = args[0]
         status, val, fired = self.run(op, lambda: fn(args, filename=fn_arg(op, fname), **kw))
         shown = fs.resolve(fs.browser_calls[-1]) if len(fs.browser_calls) > nb else None
         name = self.after_write(idx, op, status, fired, pre, tree, target, writer, shown=shown)
@@ -1067,9 +1085,68 @@ class World:
                          "document", dm.tree.shape(), "document-live")
             return status
         parent = dm.tree if names is None else self._model_get_or_add_group(dm, names)
-        parent.children.append(PNode(spec["pid"], obj, None if attrs is None else dict(attrs)))
+        node = PNode(spec["pid"], obj, None if attrs is None else dict(attrs))
+        parent.children.append(node)
+        dm.path_elems[spec["pid"]] = (val, node)
         dm.dirty = True
         self.check_doc(idx, op, dm)
+        return "ok"
+
+    def op_doc_elem_set(self, idx, op, entry):
+        """add_path returns the new Element; the caller sets one more attribute on it"""
+        if op["doc"] not in self.docs:
+            return "skipped"
+        dm = self.docs[op["doc"]]
+        if not dm.path_elems:
+            return "skipped"
+        keys = sorted(dm.path_elems)
+        el, node = dm.path_elems[keys[op.get("i", 0) % len(keys)]]
+        if el is None or not hasattr(el, "set"):
+            self.violate(idx, "op_failed_without_fault", {"op": "add_path", "note": "did not return the new element"},
+                         "document", dm.tree.shape(), "document-live")
+            return "ok"
+        el.set(op["key"], op["value"])
+        if node.attrs is None:
+            node.attrs = {}
+        node.attrs[op["key"]] = op["value"]
+        dm.dirty = True
+        self.probe("attribute_set_through_returned_element")
+        self.check_doc(idx, op, dm)
+        return "ok"
+
+    def op_doc_text(self, idx, op, entry):
+        """repr(doc) / doc.pretty() as a writer whose text goes straight to svgstr2paths / from_svg_string"""
+        if op["doc"] not in self.docs:
+            return "skipped"
+        dm = self.docs[op["doc"]]
+        st, text, _ = self.run({"faults": []}, lambda: (dm.obj.pretty() if op.get("pretty") else repr(dm.obj)))
+        if st != "ok" or not isinstance(text, str):
+            self.violate(idx, "op_failed_without_fault", {"op": "Document.pretty/repr", "status": st}, "document",
+                         dm.tree.shape(), "-")
+            return st
+
+        def read():
+            if op.get("reader") == "document_string":
+                d2 = Document.from_svg_string(text)
+                ps = [q for q in d2.paths() if is_path_elem(q.element) and "d" in q.element.attrib
+                      and "transform" not in q.element.attrib]
+                return (ps, [dict(q.element.attrib) for q in ps], dict(d2.root.attrib))
+            p, a, s = svgstr2paths(text, return_svg_attributes=True)
+            keep = [i for i, x in enumerate(a) if "d" in x and "transform" not in x] if len(p) == len(a) else range(len(p))
+            return ([p[i] for i in keep], [a[i] for i in keep] if len(p) == len(a) else a, s)
+        st, res, _ = self.run({"faults": []}, read)
+        rd = op.get("reader", "svgstr2paths")
+        if st != "ok":
+            if not (dm.tree.dless and rd == "svgstr2paths" and st == "raised:KeyError"):
+                self.violate(idx, "read_failed", {"op": "text of the document", "status": st}, "document:text",
+                             dm.tree.shape(), rd)
+            return st
+        import re
+        nsmap = {m.group(1): m.group(2) for m in re.finditer(r'xmlns:([A-Za-z_][\w.-]*)="([^"]*)"', text)}
+        m = match(tuple(res) + (nsmap,), dm.tree, rd)
+        self.probe("document_text_read_back")
+        if m is not None:
+            self.violate(idx, m[0], m[1], "document:text", dm.tree.shape(), rd)
         return "ok"
 
     def op_doc_add_group(self, idx, op, entry):
@@ -1319,6 +1396,8 @@ class World:
             except (AssertionError, ValueError, TypeError, IndexError):
                 return
             a = spec.get("attrs")
+            if a is not None:
+                a = {k: attr_text(v) for k, v in a.items() if k != "d"}      # one d per element
             parent.children.append(PNode(spec["pid"], obj, None if a is None else dict(a)))
             attrs = "".join(" %s=%s" % (k, quoteattr(v)) for k, v in (a or {}).items())
             lines.append('%s<path d="%s"%s/>' % (indent, obj.d(), attrs))
@@ -1498,7 +1577,7 @@ class Gen:
             "doc_display": c.choice([0, 0, 1]), "doc_paths": c.choice([0, 1]),
             "doc_paths_from_group": c.choice([0, 1]), "sax_resave": c.choice([0, 0, 1]),
             "doc_set_root_attr": c.choice([0, 1]), "foreign_file": c.choice([0, 0, 1, 2]),
-            "doc_mutate_result": c.choice([0, 0, 1]),
+            "doc_mutate_result": c.choice([0, 0, 1]), "doc_elem_set": c.choice([0, 1]), "doc_text": c.choice([0, 1]),
             "read": c.choice([0, 1, 2]), "restart": c.choice([0, 0, 1]), "chdir": c.choice([0, 0, 0, 1]),
         }
         if self.w_ops["wsvg"] + self.w_ops["disvg"] + self.w_ops["doc_new"] == 0:
@@ -1613,7 +1692,7 @@ class Gen:
             self.reusable = (self.reusable + [(spec["reuse"], segs)])[-4:]
         return spec
 
-    def attrs(self, r, pid, prefixed=False):
+    def attrs(self, r, pid, prefixed=False, numeric=False):
         if self.attr_mode == "none" and r.random() < 0.8:
             return None
         a = {"id": "p%d" % pid}
@@ -1628,6 +1707,10 @@ class Gen:
                 a[k] = r.choice(VAL_NASTY)
             else:
                 a[k] = r.choice(VAL_SIMPLE)
+        if numeric and r.random() < 0.3:
+            a[r.choice(["stroke-width", "fill-opacity", "data-n", "opacity"])] = r.choice([0, 0.0, 2.5, 7, False, True, 1e-05])
+        if r.random() < 0.08:
+            a["d"] = r.choice(["M 0,0 L 9,9", "M 1,1 L 2,2 L 3,1 Z"])     # e.g. a dict that came from svg2paths
         if "style" in a and r.random() < 0.85:
             # usually no attribute that the style declaration also sets (CSS precedence would apply)
             for k in style_keys(a):
@@ -1739,7 +1822,7 @@ class Gen:
                 n = a.randint(40, 120)        # a file of several tens of KiB (crosses every parser's read chunk)
             paths = [self.pathspec(a) for _ in range(n)]
             op = {"op": k, "paths": paths}
-            at = [self.attrs(a, p["pid"], prefixed=True) for p in paths]
+            at = [self.attrs(a, p["pid"], prefixed=True, numeric=True) for p in paths]
             if all(x is not None for x in at) and len(at) > 1 and a.random() < 0.12:
                 at = [dict(at[0]) for _ in at]           # every path gets the same attributes ...
                 op["share_attr_dict"] = True             # ... through one shared dict object
@@ -1772,6 +1855,8 @@ class Gen:
             # (d-strings are not handed to wsvg/disvg: without explicit dimensions the bounding-box step
             #  rejects them by design; Document.add_path documents d-string input and gets it)
             op["as"] = a.choice(["path", "path", "path", "segment"])
+            if a.random() < 0.15:
+                op["container"] = a.choice(["tuple", "single"])
             if k == "wsvg":
                 op["file"] = a.choice(self.files)
                 if a.random() < 0.2:
@@ -1902,6 +1987,12 @@ class Gen:
             return op
         if k == "doc_display":
             return {"op": k, "doc": d, "file": a.choice([None, None] + self.files)}
+        if k == "doc_elem_set":
+            key = a.choice(["stroke", "fill", "data-late", "class"])
+            return {"op": k, "doc": d, "i": a.randrange(8), "key": key,
+                    "value": a.choice(VAL_NASTY if self.attr_mode == "nasty" else VAL_SIMPLE)}
+        if k == "doc_text":
+            return {"op": k, "doc": d, "pretty": a.random() < 0.4, "reader": a.choice(["svgstr2paths", "document_string"])}
         if k == "doc_mutate_result":
             return {"op": k, "doc": d, "i": a.randrange(8), "how": a.choice(["append", "del"]), "z": self.pt(a),
                     "z2": self.pt(a)}
@@ -2069,6 +2160,7 @@ EXPECTED_PROBES = [
     "same_path_object_written_again", "segment_edited_in_place_between_two_writes", "group_given_as_plain_string",
     "reader_object_used_for_a_second_file", "query_result_edited_by_the_caller", "foreign_file_with_other_shapes",
     "nodes_drawn_as_circles", "working_directory_changed", "query_with_explicit_filters",
+    "attribute_set_through_returned_element", "document_text_read_back",
 ]
 
 
